@@ -12,10 +12,19 @@ from checks import c10_sites
 META = {
     "harness_bins": ["c10"],
     "extract": "C10.v",
-    "claimed": False,
-    "technique": "Coq proofs of panic-freedom for modelled cores (number primops, index arithmetic of string/array primops, the lexer mode automaton, span arithmetic) with every unwrap/expect/panic!/slice/cast of the mirrored Rust an explicit Panic outcome; a generated panic-site ledger over all functions mirrored by any model; the whole pipeline is only sampled: every stage of the public API under catch_unwind in a worker subprocess on grammar-generated programs, corpus mutations and random bytes",
-    "level_text": "proof (partial). (filled in when the theorems are in)",
-    "level_note": "(filled in when the theorems are in)",
+    "technique": "Coq proofs of panic-freedom for modelled cores in which every unwrap / expect / panic! / assert! / unchecked subtraction / panicking library call of the mirrored Rust is an explicit Panic outcome (number primops, index arithmetic of string and array primops, the lexer's mode automaton, span arithmetic of error conversion, name generation for type errors), tied to the code by differential runs of the extracted models; a generated ledger of every panic-capable site of the functions mirrored by any model; the whole pipeline is only SAMPLED: every stage of the public API under catch_unwind in a worker subprocess (signal = crash) on grammar-generated programs, mutations of the repository's files and random bytes, with every diagnostic label checked against its file",
+    "level_text": "proof (partial). PROVED in Coq for every input of the core (coq/Props/C10.v, 37 theorems, closed under the global context): "
+                  "(a) number primops Div, Modulo, Pow (three-way split, for every float conversion and every powf), the f64-based unary ops, arctan2 and log never reach a panicking call of the arithmetic library: division by zero and zero to a negative power are structured errors; C10_pow_unguarded_panics_iff says exactly which inputs the guard of commit c4c4d42 excludes; "
+                  "(b) index arithmetic: NickelString::substring (usize casts, checked subtraction), array/slice (the assertions of Slice::slice), array/at (get(n).unwrap()), array/generate never panic; the grapheme-index look-up of std.string.find/find_all as it was before commit c9daf53 is REFUTED (C10_find_all_index_panics_iff: exactly for a match starting at the end of the subject) and the current code is proved panic-free; "
+                  "(c) the modal lexer's automaton (mode stack, brace counter, %-count arithmetic, one-token buffer) over arbitrary sequences of raw tokens: every input is consumed into tokens or structured lexical errors, none of the 11 panic sites of enter_*/leave_*/bufferize/... is reachable, the mode stack is never popped when empty or at the wrong mode (invariant: modes alternate); "
+                  "(d) span arithmetic: every span built by ParseError::from_lexical / from_lalrpop, by the split of a candidate interpolation and by RawSpan::fuse lies within [0, len] with start <= end (sources < 4 GiB because of the u32 casts); the escape-sequence span of the code before 62096ac is REFUTED for char boundaries and the JSON/TOML error spans before fa9c5c0 are REFUTED for the range; the current conversions are proved (from_lexical_fixed; external_error_span: in range, on char boundaries, non-empty before EOF); "
+                  "(e) NameReg::select_uniq (type error reporting) as it was before 26454e7 is REFUTED for termination (diverges when candidate and candidate1 are taken), the current loop terminates on every finite registry with a free name; pretty_print_cap before 03ad279 and the lone-carriage-return assertion before 4ff7631 are refuted with witnesses, the current code proved panic-free (these nine defects were found by this check and repaired in /repo: known_findings.txt); "
+                  "(f) the panic-site ledger: C10_sites_all_covered / C10_ledger_no_stale - each of the ~180 panic-capable sites (unwrap, expect, panic!, unreachable!, unimplemented!, assert!, debug_assert!, indexing, integer casts; for C10's own cores also unsigned subtractions and panicking library calls) in the functions mirrored by a model (vector, slice, resolve, version, lock, merge, contract_eq, nls world, eval stack, lazy thunks, lexer, parser error conversion, reporting, string primops, the modelled arms of operation.rs) is mapped to a theorem of coq/Crash (checked term), to a theorem of another property by name (existence checked), or to an explicit Unproved entry (a known-defect entry kind with a refuting lemma exists for reachable sites; none at present); the list is regenerated from /repo on every run and a site that appears, disappears or moves breaks the theorems. "
+                  "NOT PROVED: crash-freedom of the whole pipeline over all byte strings. It is validated by sampling only: quick tier about 5 000 inputs, thorough about 300 000 (grammar-generated well-typed / ill-typed / ill-formed programs, token- and byte-level mutations of about 900 repository files, constructs nested 200 deep on an 8 MiB stack, random bytes incl. invalid UTF-8), each through lexing, strict and tolerant parsing, typechecking (both modes), evaluation with a step budget, export to every format, query, record-spine evaluation, pretty-printing and rendering of every error, in a worker process whose death by signal is a finding. Absence of findings there is not the universal claim.",
+    "level_note": "Trusted: Coq kernel; extraction (ExtrOcamlBasic + ExtrOcamlNativeString); the hand-written models' reading of operation.rs, term/string.rs, lexer.rs, parser error.rs, reporting.rs (tied by differential runs: primop cores ~1500/40000 cases, lexer automaton 700/20000 sources step by step with raw tokens obtained independently from the logos sub-lexers, lexical-error and split spans against the parser's own errors); the syntactic site translator; the harness (catch_unwind + supervisor; gdb only to name the repeating frames of a stack overflow or a hang). "
+                  "Modelled, not verified: floats are abstract (theorems hold for every float function); logos regex matching, LALRPOP tables, malachite, serde/toml/saphyr, codespan rendering are not modelled; usize overflow of counters at 2^64 is out of reach of inputs that fit in memory and not modelled. "
+                  "Delegated ledger entries rest on the other properties' theorems (C17, C18, C19, C20, C04, C16) by name. Not compiled into the harness: cargo features doc (markdown rendering; the evaluation part eval_record_spine is exercised), repl (query printing is reproduced by calling PrettyPrintCap as the CLI does), format, nix-experimental. "
+                  "Resource exhaustion inside evaluation stages under the step budget (e.g. %pow% 2 1e12, array/generate 4e9) is counted in the evidence and not reported as a violation; in the parser and typechecker it is. The debug profile is deliberate (debug assertions and overflow checks are observed).",
 }
 
 EVAL_STAGES = ("eval", "export", "eval_full", "query", "query_field0", "query_field1", "query_field2", "doc_spine",
@@ -540,8 +549,8 @@ def correspond_ops(ck, exe_model, n):
                              {"case": case_line("ncl", prog.encode()), "input": prog, "model": m, "impl": r})
                 if orig != "PANIC":
                     ck.obligation("correspondence:find_all_index", "correspondence", False, "%s: impl panics, model (unchanged-tree version) says %s" % (prog, orig))
-            elif rv != fixed and rv != orig:
-                ck.obligation("correspondence:find_all_index", "correspondence", False, "%s: impl %s, model orig %s / repaired %s" % (prog, rv, orig, fixed))
+            elif rv != fixed:
+                ck.obligation("correspondence:find_all_index", "correspondence", False, "%s: impl %s, model %s (before c9daf53: %s)" % (prog, rv, fixed, orig))
             continue
         mclass = m.split(" ")[0]
         ck.hist("ops_model_outcome", kind + ":" + mclass)
@@ -594,8 +603,8 @@ def trace_to_model(trace):
                     c = ["EscAscii", "1" if int(c[1], 16) <= 0x7F else "0"]
                 except ValueError:
                     c = ["EscAscii", "0"]
-            elif mode == "M" and c[0] == "Literal":
-                c = ["Literal"]
+            elif mode == "M" and c[0] in ("Literal", "LiteralCR"):
+                c = [c[0]]
             syms.append(mode + ":" + ":".join(c))
             if mode == "N" and c[0] == "Comment":
                 expect.append("Again")
@@ -724,8 +733,11 @@ def correspond_lexer(ck, exe_model, n):
                     continue
                 pe_name, _, pe_nums = obs[3:].partition(" ")
                 got = pe_nums.strip()
-                cand = {mo.group(1).replace(" ", "-"), mo.group(2).replace(" ", "-")}
-                if pe_name.strip() != {"Generic": "UnexpectedToken"}.get(name, name) or got not in cand:
+                if pe_name.strip() != {"Generic": "UnexpectedToken"}.get(name, name):
+                    # a grammar action raised its own error before the parser pulled the offending token
+                    ck.hist("span_correspondence", "parser-stopped-earlier")
+                    continue
+                if got != mo.group(2).replace(" ", "-"):
                     ck.obligation("correspondence:from_lexical", "correspondence", False, "%r: parser reports %s, model %s (%s)" % (text[:80], obs, m, line))
             else:
                 lit, interp = obs
